@@ -511,7 +511,7 @@ func runC18(tb ev.TB, p c18Prog) ev.Result {
 
 func TestC18(t *testing.T) {
 	c := ev.Get("C18")
-	c.Rule = "rapid generates entries as in C08 (0-7 predecessors, 0-7 references incl. CIDv0/raw CIDs, binary payloads) written with one of 6 link keys (the library's secretbox keys or, in a quarter of the cases, keys of another make - AES-GCM with 12-byte nonces - behind the same interface) - in a quarter of the cases through a delegating wrapper that embeds the keyed codec - (and written again with generated create options: pinned and/or hashed before signing), plus a small log (1-8 appends with pointer counts 0..16) written with that key. Oracles: the stored bytes contain no binary or textual form (raw CID bytes, multihash, digest, hex, base32/36/58/64 with and without multibase prefix) of any predecessor/reference or of any earlier block of the log - nor a fragment of one (16 characters of a textual form, 10 bytes of a binary form), be it in the bytes of the block or in what its text fields carry once base64 or hex is taken off - and decode to a node without links; a reader holding the same key (separately constructed codec) recovers identical ordered lists, verifies, merges and loads the whole log; readers with no key or another key - their codecs built from scratch or, in a third of the cases, derived from the writer's codec object with ApplyOptions - get an error or empty lists and load at most the entry itself. Non-trivial = entry with >= 1 predecessor and >= 1 reference; distinct = distinct program. The sealed entry (and a copy) is written again through Entry.ToMultihash, a keyless and an other-key codec: whatever is stored must be opaque; in a quarter of the cases all three codecs are configured through ONE cbor.Options value whose key field the caller changes between the ApplyOptions calls."
+	c.Rule = "rapid generates entries as in C08 (0-7 predecessors, 0-7 references incl. CIDv0/raw CIDs, binary payloads) written with one of 6 link keys (the library's secretbox keys or, in a quarter of the cases, keys of another make - AES-GCM with 12-byte nonces - behind the same interface) - in a quarter of the cases through a delegating wrapper that embeds the keyed codec - (and written again with generated create options: pinned and/or hashed before signing), plus a small log (1-8 appends with pointer counts 0..16) written with that key. Oracles: the stored bytes contain no binary or textual form (raw CID bytes, multihash, digest, hex, base32/36/58/64 with and without multibase prefix) of any predecessor/reference or of any earlier block of the log - nor a fragment of one (16 characters of a textual form, 10 bytes of a binary form), be it in the bytes of the block or in what its text fields carry once base64 or hex is taken off - and decode to a node without links; a reader holding the same key (separately constructed codec) recovers identical ordered lists, verifies, merges and loads the whole log; readers with no key or another key - their codecs built from scratch or, in a third of the cases, derived from the writer's codec object with ApplyOptions - get an error or empty lists and load at most the entry itself. Non-trivial = entry with >= 1 predecessor and >= 1 reference; distinct = distinct program. The sealed entry (and a copy) is written again through Entry.ToMultihash, a keyless and an other-key codec: whatever is stored must be opaque; in a quarter of the cases all three codecs are configured through ONE cbor.Options value whose key field the caller changes between the ApplyOptions calls. In a third of the cases the caller keeps ONE fetch-options value (per options type) for every load, whichever reader's codec the load is for; the published head list is loaded by a same-key, a keyless, an other-key and again a same-key reader in turn."
 	ev.Check(t, "C18", genC18, runC18)
 }
 
